@@ -115,8 +115,28 @@ RUNS += [
     dict(name="timer-delay", prim="timer", cfg="2 1 0", flavours=["local", "sync"],
          quick=dict(explore=300000), thorough=dict(explore=300000)),
 ]
-STATE_RUNS = ["state-local", "state-shared", "state-k3"]
-TIMER_RUNS = ["timer-k3", "timer-k4", "timer-k4-d3", "timer-delay"]
+# shared-waker exploration (explore-sw): besides its own two wakers every future may be polled with
+# one waker common to all futures - one task polling several futures (join!, select!) - so that
+# waker bookkeeping which depends on `will_wake` between DIFFERENT futures is exercised.  All exhaustive.
+SW = dict(explore_cmd="explore-sw", corpus=False)
+RUNS += [
+    dict(name="event-sw", prim="event", cfg="3 0", flavours=["local", "sync"], quick=dict(explore=1000000), thorough=dict(explore=1000000), **SW),
+    dict(name="mutex-sw-unfair", prim="mutex", cfg="3 0", flavours=["local"], quick=dict(explore=1000000), thorough=dict(explore=1000000), **SW),
+    dict(name="mutex-sw-fair", prim="mutex", cfg="3 1", flavours=["local"], quick=dict(explore=1000000), thorough=dict(explore=1000000), **SW),
+    dict(name="sem-sw-unfair", prim="semaphore", cfg="2 0 0 3 1 3 1", flavours=["local"], quick=dict(explore=1000000), thorough=dict(explore=1000000), **SW),
+    dict(name="sem-sw-fair", prim="semaphore", cfg="2 1 0 3 1 3 1", flavours=["local"], quick=dict(explore=1000000), thorough=dict(explore=1000000), **SW),
+    dict(name="mpmc-sw-c0", prim="mpmc", cfg="2 2 0 0 0", flavours=["local"], quick=dict(explore=1000000), thorough=dict(explore=1000000), **SW),
+    dict(name="mpmc-sw-c1", prim="mpmc", cfg="2 1 1 0 0", flavours=["local"], quick=dict(explore=1000000), thorough=dict(explore=1000000), **SW),
+    dict(name="mpmc-sw-shared", prim="mpmc", cfg="1 1 1 1 2", flavours=["shared"], quick=dict(explore=1000000), thorough=dict(explore=1000000), **SW),
+    dict(name="oneshot-sw", prim="oneshot", cfg="3 0 1 0 0", flavours=["local"], quick=dict(explore=1000000), thorough=dict(explore=1000000), **SW),
+    dict(name="bcast-sw", prim="oneshot", cfg="3 1 1 0 0", flavours=["local", "sync"], quick=dict(explore=1000000), thorough=dict(explore=1000000), **SW),
+    dict(name="bcast-sw-shared", prim="oneshot", cfg="2 1 1 1 3", flavours=["shared"], quick=dict(explore=1000000), thorough=dict(explore=1000000), **SW),
+    dict(name="state-sw", prim="state", cfg="2 0 0 2", flavours=["local"], quick=dict(explore=1000000), thorough=dict(explore=1000000), **SW),
+    dict(name="state-sw-shared", prim="state", cfg="2 1 2 2", flavours=["shared"], quick=dict(explore=1000000), thorough=dict(explore=1000000), **SW),
+    dict(name="timer-sw", prim="timer", cfg="3 2 2", flavours=["local"], quick=dict(explore=1000000), thorough=dict(explore=1000000), **SW),
+]
+STATE_RUNS = ["state-local", "state-shared", "state-k3", "state-sw", "state-sw-shared"]
+TIMER_RUNS = ["timer-k3", "timer-k4", "timer-k4-d3", "timer-delay", "timer-sw"]
 # ring buffers: cfg = kind (0 array, 1 fixed heap, 2 growing heap), capacity, debug assertions, malformed calls too
 RB_RUNS = []
 for kind in (0, 1, 2):
@@ -144,10 +164,10 @@ RUNS += [
     dict(name="mpmc-sstream-c1", prim="mpmc", cfg="1 1 1 1 2 1", flavours=["shared"], quick=dict(explore=1000000), thorough=dict(explore=1000000)),
     dict(name="mpmc-sstream-c0", prim="mpmc", cfg="2 1 0 1 2 1", flavours=["shared"], quick=dict(explore=1000000), thorough=dict(explore=1000000)),
 ]
-MPMC_RUNS = ["mpmc-c0", "mpmc-c1", "mpmc-c2", "mpmc-c1-22", "mpmc-c1-31", "mpmc-c2-22", "mpmc-shared-c0", "mpmc-shared-c1", "mpmc-shared-c1-h3"]
-ONESHOT_RUNS = ["oneshot-local", "bcast-local", "oneshot-shared", "bcast-shared"]
-MUTEX_RUNS = ["mutex-k3-unfair", "mutex-k3-fair", "mutex-k4-unfair", "mutex-k4-fair"]
-SEM_RUNS = ["sem-k2-unfair", "sem-k2-fair", "sem-k2-unfair-p1", "sem-k2-fair-p1", "sem-k3-unfair", "sem-k3-fair", "sem-max-unfair", "sem-max-fair", "sem-k3-p3-unfair", "sem-k3-p3-fair"]
+MPMC_RUNS = ["mpmc-c0", "mpmc-c1", "mpmc-c2", "mpmc-c1-22", "mpmc-c1-31", "mpmc-c2-22", "mpmc-shared-c0", "mpmc-shared-c1", "mpmc-shared-c1-h3", "mpmc-sw-c0", "mpmc-sw-c1", "mpmc-sw-shared"]
+ONESHOT_RUNS = ["oneshot-local", "bcast-local", "oneshot-shared", "bcast-shared", "oneshot-sw", "bcast-sw", "bcast-sw-shared"]
+MUTEX_RUNS = ["mutex-k3-unfair", "mutex-k3-fair", "mutex-k4-unfair", "mutex-k4-fair", "mutex-sw-unfair", "mutex-sw-fair"]
+SEM_RUNS = ["sem-k2-unfair", "sem-k2-fair", "sem-k2-unfair-p1", "sem-k2-fair-p1", "sem-k3-unfair", "sem-k3-fair", "sem-max-unfair", "sem-max-fair", "sem-k3-p3-unfair", "sem-k3-p3-fair", "sem-sw-unfair", "sem-sw-fair"]
 
 # ---------------------------------------------------------------------------------------------
 ALL_RUNS_FOR_PROTOCOL = None
